@@ -197,6 +197,28 @@ if self._graph is None:
     make_graph(self)
 return self._graph
 '''
+CHARGE_SETTER = "self._charge = int(value)"
+MULT_SETTER = '''
+try:
+    assert int(value) > 0
+except (ValueError, AssertionError, TypeError):
+    raise ValueError(f"Failed to set the spin multiplicity to {value}. Must be a non-zero positive integer")
+self._mult = int(value)
+'''
+COLLECTION_ATOMS_SETTER = "self._atoms = Atoms(value) if value is not None else None"
+MODULE_LITERALS = {   # module-level tables the model / harness copy
+    ("base", "aromatic_symbols"): ["b", "c", "n", "o", "s", "p"],
+    ("base", "bond_order_symbols"): ["-", "=", "#", "$"],
+}
+# autode.atoms.metals as the path-selection oracle of harness/c02.py knows it (independent copy)
+METALS = [
+    "Li", "Be", "Na", "Mg", "Al", "K", "Ca", "Sc", "Ti", "V", "Cr", "Mn", "Fe", "Co", "Ni", "Cu", "Zn", "Ga",
+    "Rb", "Sr", "Y", "Zr", "Nb", "Mo", "Tc", "Ru", "Rh", "Pd", "Ag", "Cd", "In", "Sn", "Cs", "Ba", "La",
+    "Ce", "Pr", "Nd", "Pm", "Sm", "Eu", "Gd", "Tb", "Dy", "Ho", "Er", "Tm", "Yb", "Lu", "Hf", "Ta", "W",
+    "Re", "Os", "Ir", "Pt", "Au", "Hg", "Tl", "Pb", "Bi", "Po", "Fr", "Ra", "Ac", "Th", "Pa", "U", "Np",
+    "Pu", "Am", "Cm", "Bk", "Cf", "Es", "Fm", "Md", "No", "Lr", "Rf", "Db", "Sg", "Bh", "Hs", "Mt", "Ds",
+    "Rg", "Cn", "Nh", "Fl", "Mc", "Lv",
+]
 IS_AROMATIC = "return self.smiles_label in aromatic_symbols"
 HAS_STEREOCHEM = "return self.stereochem is not SMILESStereoChem.NONE"
 PARSER_CHARGE = "return sum(atom.charge for atom in self.atoms)"
@@ -205,6 +227,20 @@ n_electrons = sum([at.atomic_number for at in self.atoms]) - self.charge
 n_electrons += sum(at.n_hydrogens if at.n_hydrogens is not None else 0 for at in self.atoms)
 return (n_electrons % 2) + 1
 '''
+
+
+def check_literal(tree_body, name, expected, what):
+    for st in tree_body:
+        if isinstance(st, ast.Assign) and len(st.targets) == 1 and isinstance(st.targets[0], ast.Name) and st.targets[0].id == name:
+            try:
+                val = ast.literal_eval(st.value)
+            except Exception:  # noqa
+                raise Untranslatable(f"{what}: {name} is not a literal")
+            if list(val) != list(expected):
+                diff = sorted(set(val) ^ set(expected)) or "order"
+                raise Untranslatable(f"{what}: {name} differs from the table the model/harness was written from ({diff})")
+            return
+    raise Untranslatable(f"{what}: {name} not found")
 
 
 def check_make_graph(fn):
@@ -630,7 +666,7 @@ def tr_top(fn):
 
 
 def main():
-    files = {"smiles": "autode/smiles/smiles.py", "molecule": "autode/species/molecule.py",
+    files = {"smiles": "autode/smiles/smiles.py", "molecule": "autode/species/molecule.py", "atoms": "autode/atoms.py",
              "graphs": "autode/mol_graphs.py", "builder": "autode/smiles/builder.py",
              "species": "autode/species/species.py", "base": "autode/smiles/base.py",
              "parser": "autode/smiles/parser.py"}
@@ -678,6 +714,13 @@ def main():
     Sp = get_class(tree["species"], "Species")
     expect_body(get_method(Sp, "atoms", setter=True), ATOMS_SETTER, "Species.atoms setter")
     expect_body(get_method(Sp, "graph"), GRAPH_GETTER, "Species.graph")
+    expect_body(get_method(Sp, "charge", setter=True), CHARGE_SETTER, "Species.charge setter")
+    expect_body(get_method(Sp, "mult", setter=True), MULT_SETTER, "Species.mult setter")
+    expect_body(get_method(get_class(tree["atoms"], "AtomCollection"), "atoms", setter=True), COLLECTION_ATOMS_SETTER,
+                "AtomCollection.atoms setter")
+    for (mod, name), val in MODULE_LITERALS.items():
+        check_literal(tree[mod], name, val, f"autode/smiles/{mod}.py")
+    check_literal(tree["atoms"], "metals", METALS, "autode/atoms.py")
     SA = get_class(tree["base"], "SMILESAtom")
     expect_body(get_method(SA, "is_aromatic"), IS_AROMATIC, "SMILESAtom.is_aromatic")
     expect_body(get_method(SA, "has_stereochem"), HAS_STEREOCHEM, "SMILESAtom.has_stereochem")
